@@ -19,12 +19,44 @@ fn lock_path(dir: &Path) -> PathBuf {
     dir.join("renamify.lock")
 }
 
+/// pid of a live process that is not renamify: a `sleep` child of the harness, started once and killed when the
+/// harness's stdin closes (it sleeps at most 10 minutes anyway)
+static OTHER_CHILD: std::sync::OnceLock<u32> = std::sync::OnceLock::new();
+
+fn other_pid() -> u32 {
+    *OTHER_CHILD.get_or_init(|| {
+        let child = std::process::Command::new("sleep")
+            .arg("600")
+            .stdin(std::process::Stdio::null())
+            .stdout(std::process::Stdio::null())
+            .stderr(std::process::Stdio::null())
+            .spawn()
+            .expect("spawn sleep");
+        let pid = child.id();
+        std::mem::forget(child);
+        pid
+    })
+}
+
+/// stop the helper process (called by `lockother stop`)
+fn stop_other() -> String {
+    let Some(&pid) = OTHER_CHILD.get() else { return "stopped".to_string() };
+    unsafe {
+        libc::kill(pid as libc::pid_t, libc::SIGKILL);
+        libc::waitpid(pid as libc::pid_t, std::ptr::null_mut(), 0);
+    }
+    "stopped".to_string()
+}
+
 fn token(t: &str, now: u64) -> Option<Vec<u8>> {
     if let Some(h) = t.strip_prefix('x') {
         return unhex(if h.is_empty() { "-" } else { h });
     }
     if t == "SELF" {
         return Some(std::process::id().to_string().into_bytes());
+    }
+    if t == "OTHER" {
+        return Some(other_pid().to_string().into_bytes());
     }
     if t == "NOW" {
         return Some(now.to_string().into_bytes());
@@ -80,7 +112,13 @@ fn classify(msg: &str) -> String {
     if let Some(i) = msg.find("already running (PID: ") {
         let rest = &msg[i + "already running (PID: ".len()..];
         let pid: String = rest.chars().take_while(|c| c.is_ascii_digit()).collect();
-        let shown = if pid == std::process::id().to_string() { "SELF".to_string() } else { pid };
+        let shown = if pid == std::process::id().to_string() {
+            "SELF".to_string()
+        } else if OTHER_CHILD.get().is_some_and(|p| pid == p.to_string()) {
+            "OTHER".to_string()
+        } else {
+            pid
+        };
         return format!("already-running:{}", shown);
     }
     if msg.contains("Failed to create lock file") {
@@ -230,6 +268,7 @@ pub fn dispatch(fields: &[&str]) -> Option<String> {
     match fields.first().copied() {
         Some("lockbuild") => Some(if cfg!(debug_assertions) { "debug" } else { "release" }.to_string()),
         Some("lockseq") => Some(lockseq(&fields[1..])),
+        Some("lockother") => Some(stop_other()),
         Some("lockwit") => Some(lockwit(&fields[1..])),
         _ => None,
     }
